@@ -11,7 +11,10 @@
 (*   the hash), "dur" (the anchor literals x every duration text x the     *)
 (*   arithmetic forms), "bad" (one field of a literal pushed out of range: *)
 (*   the literal must be refused, or is soft / silent as the mutation      *)
-(*   says).                                                                *)
+(*   says; a soft literal - second 60, minute 60, hour 24, a wrong weekday *)
+(*   - is also put into the arithmetic forms: refused, or the laws hold),  *)
+(*   "partial" (literals that write a time only, or an incomplete date:    *)
+(*   year and ISO week, month and day without a year).                     *)
 (* The invariant RoundTrip is a theorem about the specification itself:    *)
 (* every generated literal has, under DateTime!Readings, exactly the       *)
 (* reading it was written from (grid, dur), respectively the class the     *)
@@ -58,7 +61,8 @@ OffText(style, off) ==
   IN CASE style = 2 -> sg \o PadNum(hh, 2) \o PadNum(mm, 2)
        [] style = 3 /\ hh < 10 -> sg \o NumText(hh) \o COL \o PadNum(mm, 2)
        [] OTHER -> sg \o PadNum(hh, 2) \o COL \o PadNum(mm, 2)
-OffSuffix(c, style) == IF c.ok = 0 THEN <<>> ELSE IF c.ok = 2 THEN SPC \o Zones[c.off] ELSE SPC \o OffText(style, c.off)
+OffSuffix(c, style) == IF c.offraw # <<>> THEN SPC \o c.offraw
+                       ELSE IF c.ok = 0 THEN <<>> ELSE IF c.ok = 2 THEN SPC \o Zones[c.off] ELSE SPC \o OffText(style, c.off)
 
 \* fraction styles: 1 = as given, 2 = padded to nine digits
 FracStyle(fr, style) == IF fr = <<>> \/ style = 1 \/ Len(fr) >= 9 THEN fr ELSE fr \o [i \in 1..(9 - Len(fr)) |-> 0]
@@ -109,11 +113,42 @@ Applicable(w, c) ==
 
 ExpInst(c) == InstantOf(DaysFromCivil(c.y, c.mo, c.dd), c.hh * 3600 + c.mi * 60 + c.ss - (IF c.ok = 1 THEN c.off ELSE 0), FracNanos(c.fr))
 
+\* literals with a time only, or an incomplete date (mode "partial")
+PartialWriters == {"week", "weekt", "md", "mdt", "named", "namedt24", "namedt12", "tod24", "tod12"}
+DayNumber(c) == DaysFromCivil(c.y, c.mo, c.dd)
+WeekText(c) == PadNum(IsoYearOf(DayNumber(c)), 4) \o DSH \o DW_W \o PadNum(IsoWeekOf(DayNumber(c)), 2)
+WritePartial(w, c) ==
+  CASE w = "week" ->      \* year-'W'isoweek
+         WeekText(c)
+    [] w = "weekt" ->     \* year-'W'isoweek hour24:min[:sec][ offset]
+         WeekText(c) \o SPC \o Time24Short(c, 1) \o OffSuffix(c, 1)
+    [] w = "md" ->        \* --monthnum-day
+         DSH \o DSH \o PadNum(c.mo, 2) \o DSH \o NumText(c.dd)
+    [] w = "mdt" ->       \* --monthnum-day hour24:min:sec[ offset]
+         DSH \o DSH \o PadNum(c.mo, 2) \o DSH \o PadNum(c.dd, 2) \o SPC \o Time24Full(c, 1) \o OffSuffix(c, 2)
+    [] w = "named" ->     \* monthname day
+         DW_MonthFull[c.mo] \o SPC \o NumText(c.dd)
+    [] w = "namedt24" ->  \* Monthname day hour24:min[:sec][ offset]
+         Cap(DW_MonthAbbr[c.mo]) \o SPC \o NumText(c.dd) \o SPC \o Time24Short(c, 1) \o OffSuffix(c, 1)
+    [] w = "namedt12" ->  \* monthname day hour12:min:sec meridiem[ offset]
+         DW_MonthAbbr[c.mo] \o SPC \o PadNum(c.dd, 2) \o SPC \o Time12Full(c, 2) \o SPC \o Merid(c) \o OffSuffix(c, 3)
+    [] w = "tod24" ->     \* hour24:min[:sec][ offset]
+         Time24Short(c, 1) \o OffSuffix(c, 1)
+    [] w = "tod12" ->     \* hour12:min:sec MERIDIEM[ offset]
+         Time12Full(c, 1) \o SPC \o Upper(Merid(c)) \o OffSuffix(c, 2)
+PartialApplicable(w, c) ==
+  CASE w \in {"week", "md", "named"} -> NoTime(c) /\ (w = "week" => c.y >= 1)
+    [] w = "weekt" -> c.y >= 1
+    [] w \in {"tod24", "tod12"} -> c.ok # 2       \* a time of today in a named zone may fall into a gap of that zone
+    [] OTHER -> TRUE
+
 C0 == [y |-> 0, mo |-> 0, dd |-> 0, hh |-> 0, mi |-> 0, ss |-> 0, fr |-> <<>>, ok |-> 0, off |-> 0,
-       h12 |-> -1, wd |-> 0, ord |-> -1, oi |-> 0, mut |-> "none", expect |-> "one"]
+       h12 |-> -1, wd |-> 0, ord |-> -1, oi |-> 0, mut |-> "none", expect |-> "one", offraw |-> <<>>]
 
 WriterIndex(w) == CASE w = "isoT" -> 1 [] w = "iso" -> 2 [] w = "isodate" -> 3 [] w = "ord" -> 4 [] w = "mdy12" -> 5
                     [] w = "mdy24" -> 6 [] w = "mdy" -> 7 [] w = "ctime" -> 8 [] w = "ymd12" -> 9 [] w = "ymd24" -> 10
+                    [] w = "week" -> 11 [] w = "weekt" -> 12 [] w = "md" -> 13 [] w = "mdt" -> 14 [] w = "named" -> 15
+                    [] w = "namedt24" -> 16 [] w = "namedt12" -> 17 [] w = "tod24" -> 18 [] w = "tod12" -> 19
 Abs(n) == IF n < 0 THEN -n ELSE n
 \* the rotation of durations / anchors / zones / forms uses a multiplicative mix of the hash (all values < 2^31)
 Mix(h) == (h * 7919) % 1000003
@@ -145,7 +180,8 @@ MakeQuery(f, t, h) ==
 -----------------------------------------------------------------------------
 (* mutations (mode "bad"): one field pushed out of range.  expect: "refuse", "soft", "silent" *)
 Mutations == {"mo13", "mo00", "dd32", "dd00", "feb30", "feb29", "apr31", "hh24", "hh25", "h13", "h00", "mi60", "mi61",
-              "ss61", "ss60", "ss99f", "frac10", "off24", "offm24", "off99", "off2500", "wd", "ord366", "ord000", "ord367"}
+              "ss61", "ss60", "ss60f", "ss99f", "frac10", "off24", "offm24", "off99", "off2500", "offmin60", "offmin99",
+              "wd", "ord366", "ord000", "ord367"}
 MutApplies(m, w, c) ==
   CASE m \in {"mo13", "mo00"} -> w \in {"isoT", "iso", "isodate"}
     [] m = "dd00" -> w \in {"isoT", "iso", "isodate", "mdy", "mdy24", "ymd24"}
@@ -154,8 +190,9 @@ MutApplies(m, w, c) ==
     [] m \in {"hh24", "hh25"} -> w \in {"isoT", "iso", "ord", "mdy24", "ctime", "ymd24"}
     [] m \in {"h13", "h00"} -> w \in {"mdy12", "ymd12"}
     [] m \in {"mi60", "mi61"} -> w \notin {"isodate", "mdy"}
-    [] m \in {"ss61", "ss60", "ss99f", "frac10"} -> w \in {"isoT", "ord", "mdy24", "ctime", "ymd12"}
-    [] m \in {"off24", "offm24", "off99", "off2500"} -> w \in {"isoT", "iso", "ord", "mdy12", "mdy24", "ymd12", "ymd24"}
+    [] m \in {"ss61", "ss60", "ss60f", "ss99f", "frac10"} -> w \in {"isoT", "ord", "mdy24", "ctime", "ymd12"}
+    [] m \in {"off24", "offm24", "off99", "off2500", "offmin60", "offmin99"} ->
+         w \in {"isoT", "iso", "ord", "mdy12", "mdy24", "ymd12", "ymd24"}
     [] m = "wd" -> w = "ctime"
     [] m = "ord366" -> w = "ord" /\ ~IsLeap(c.y)
     [] m \in {"ord000", "ord367"} -> w = "ord"
@@ -174,13 +211,17 @@ Mutate(m, c) ==
     [] m = "mi60" -> [c EXCEPT !.mi = 60, !.expect = "soft"]
     [] m = "mi61" -> [c EXCEPT !.mi = 61, !.expect = "refuse"]
     [] m = "ss61" -> [c EXCEPT !.ss = 61, !.fr = <<>>, !.expect = "refuse"]
-    [] m = "ss60" -> [c EXCEPT !.ss = 60, !.fr = <<>>, !.expect = "silent"]
+    [] m = "ss60" -> [c EXCEPT !.ss = 60, !.fr = <<>>, !.expect = IF c.ok = 2 THEN "silent" ELSE "soft"]
+    [] m = "ss60f" -> [c EXCEPT !.ss = 60, !.fr = <<5>>, !.expect = IF c.ok = 2 THEN "silent" ELSE "soft"]
     [] m = "ss99f" -> [c EXCEPT !.ss = 99, !.fr = <<5>>, !.expect = "refuse"]
     [] m = "frac10" -> [c EXCEPT !.fr = <<1, 2, 3, 4, 5, 6, 7, 8, 9, 0>>, !.expect = "win"]
     [] m = "off24" -> [c EXCEPT !.ok = 1, !.off = 86400, !.expect = "refuse"]
     [] m = "offm24" -> [c EXCEPT !.ok = 1, !.off = -86400, !.expect = "refuse"]
     [] m = "off99" -> [c EXCEPT !.ok = 1, !.off = 99 * 3600, !.expect = "refuse"]
     [] m = "off2500" -> [c EXCEPT !.ok = 1, !.off = 25 * 3600, !.expect = "refuse"]
+    \* +hhmm with minutes of 60 and more: no offset
+    [] m = "offmin60" -> [c EXCEPT !.ok = 1, !.off = 0, !.offraw = <<43, 48, 49, 54, 48>>, !.expect = "refuse"]
+    [] m = "offmin99" -> [c EXCEPT !.ok = 1, !.off = 0, !.offraw = <<45, 48, 49, 57, 57>>, !.expect = "refuse"]
     [] m = "wd" -> [c EXCEPT !.wd = (WeekdayOf(DaysFromCivil(c.y, c.mo, c.dd)) % 7) + 1, !.expect = "soft"]
     [] m = "ord366" -> [c EXCEPT !.ord = 366, !.expect = "refuse"]
     [] m = "ord000" -> [c EXCEPT !.ord = 0, !.expect = "refuse"]
@@ -219,8 +260,19 @@ PickForm == /\ stage = "form" /\ Mode = "grid"
                \E j \in 0..FormsPer :
                  q' = MakeQuery(IF j = 0 THEN "lit" ELSE Forms[((h + j - 1) % Len(Forms)) + 1], lit, (h \div 8) + j * 131)
             /\ stage' = "done" /\ UNCHANGED <<x, lit, form>>
-BadForm == /\ stage = "form" /\ Mode = "bad"
-           /\ q' = Lit(lit)
+\* partial: a time only, or an incomplete date
+PickPartial == /\ stage = "writer" /\ Mode = "partial"
+               /\ \E w \in PartialWriters :
+                    /\ PartialApplicable(w, x)
+                    /\ x' = [x EXCEPT !.mut = w, !.expect = "partial"]
+                    /\ lit' = WritePartial(w, x) /\ form' = w
+               /\ stage' = "form" /\ UNCHANGED q
+\* the literal alone; a soft literal also inside the arithmetic forms (FormsPer durations / anchors each)
+SoftForms == {"addsub", "subadd", "plus", "minus", "diff", "rdiff"}
+BadForm == /\ stage = "form" /\ Mode \in {"bad", "partial"}
+           /\ \/ q' = Lit(lit)
+              \/ /\ x.expect = "soft"
+                 /\ \E fm \in SoftForms : \E j \in 1..FormsPer : q' = MakeQuery(fm, lit, Mix(Hash(x, form)) + j)
            /\ stage' = "done" /\ UNCHANGED <<x, lit, form>>
 \* dur: every anchor literal x every duration text x the arithmetic forms
 DurForm == /\ stage = "date" /\ Mode = "dur"
@@ -229,7 +281,7 @@ DurForm == /\ stage = "date" /\ Mode = "dur"
                 /\ lit' = AnchorLits[a]
            /\ stage' = "done" /\ UNCHANGED <<x, form>>
 
-Next == DurForm \/ PickDate \/ PickTime \/ PickOffset \/ PickWriter \/ PickMutation \/ PickForm \/ BadForm
+Next == DurForm \/ PickDate \/ PickTime \/ PickOffset \/ PickWriter \/ PickMutation \/ PickPartial \/ PickForm \/ BadForm
 Spec == Init /\ [][Next]_vars
 
 -----------------------------------------------------------------------------
@@ -241,7 +293,18 @@ RoundTrip ==
                                /\ \A r \in s.valid : r.c = "fixed" /\ ~r.soft /\ r.win = 0
         [] x.expect = "zoned" -> /\ ~s.silent /\ s.ninvalid = 0 /\ {r.inst : r \in s.valid} = {ExpInst(x)}
                                  /\ \A r \in s.valid : r.c = "zoned" /\ r.win = 0
-        [] x.expect = "refuse" -> ~s.silent /\ s.valid = {}
+        [] x.expect = "refuse" -> ~s.silent /\ s.valid = {} /\ s.partial = {}
+        [] x.expect = "partial" ->
+             /\ ~s.silent /\ s.valid = {} /\ s.ninvalid = 0 /\ Cardinality(s.partial) = 1
+             /\ \A pc \in s.partial :
+                  /\ pc.secs = (x.hh * 3600) + (x.mi * 60) + x.ss /\ pc.ns = FracNanos(x.fr)
+                  /\ pc.ok = x.ok /\ (x.ok = 1 => pc.off = x.off)
+                  /\ CASE form \in {"week", "weekt"} ->
+                            /\ pc.wk = IsoWeekOf(DayNumber(x)) /\ pc.hy /\ pc.y = IsoYearOf(DayNumber(x))
+                            /\ pc.mo = 0 /\ pc.dd = 0 /\ ~pc.nodate
+                            /\ PCFits(pc, <<x.y, x.mo, x.dd, x.hh, x.mi, x.ss, FracNanos(x.fr)>>, IF x.ok = 1 THEN x.off ELSE 0)
+                       [] form \in {"tod24", "tod12"} -> pc.nodate /\ ~pc.hy /\ pc.mo = 0 /\ pc.dd = 0 /\ pc.wk = 0
+                       [] OTHER -> pc.mo = x.mo /\ pc.dd = x.dd /\ ~pc.hy /\ pc.wk = 0 /\ ~pc.nodate
         [] x.expect = "soft" -> ~s.silent /\ s.valid # {} /\ \A r \in s.valid : r.soft
         [] x.expect = "win" -> ~s.silent /\ s.valid # {} /\ \A r \in s.valid : r.win = 1 /\ r.soft
         [] x.expect = "silent" -> s.silent
